@@ -136,6 +136,9 @@ class Reporter:
         cov["evaluations"] = int(self.evaluations)
         cov["distinct_nontrivial"] = len(self._nontrivial)
         cov["samples"] = self.samples or ["(no sample recorded)"]
+        cov.setdefault("rule", getattr(self, "rule", None) or
+                       "cases are enumerated by TLC from the specification (or drawn with the run's seed); a case is "
+                       "counted as non-trivial by the driver's rep.nontrivial() keys (distinct structural classes)")
         cov["known_findings_hit"] = {k: v for k, v in self.known_hit.items()}
         if self.drift:
             cov["spec_drift_examples"] = self.drift[:10]
